@@ -74,7 +74,7 @@ def check(G, conf, nodes_all, P, t, known_nodes, z):
             return False, None
 
     nb_menu = [('none', None)] + [('single', n) for n in known_nodes] + \
-              [('list', [known_nodes[0], known_nodes[-1]]), ('list+unknown', [known_nodes[0], z]),
+              [('list', list(dict.fromkeys([known_nodes[0], known_nodes[-1]]))), ('list+unknown', [known_nodes[0], z]),
                ('unknown-only', [z]), ('empty', [])]
 
     def nb_known(nb):
